@@ -278,8 +278,8 @@ def shrink(case, exc):
 
 
 def run_shard(ctx):
-    n = 250 if ctx.tier == 'quick' else 6000
-    ctx.set_budget(70 if ctx.tier == 'quick' else 2400)
+    n = 250 if ctx.tier == 'quick' else 24000
+    ctx.set_budget(70 if ctx.tier == 'quick' else 1100)
     explore(ctx, strategy(), run_case, n, shrink=shrink)
     if not ctx.stats.violations:
         exhaustive(ctx, 2 if ctx.tier == 'quick' else 3)
